@@ -9,7 +9,7 @@ import RV.Base.Proto
     read pure                -> ok    iteration / pattern / len / flat serializers / paths / cbd
     read copy                -> ok    compare functions, set operators (work on copies)
     read ctxs | trig | jsonld | jsonldbuggy | graphs
-    read query <gvar 0|1> <from,…|-> <named,…|->
+    read query <gvar 0|1> <f:g|n:g,…|-> <load 0|1>     dataset clause in order; i50/i51 = loadable documents
     read contains4 <g> <how 0|1> | quads4 <g> <how> | triples4 <g> <how> | triplesctx <g>
     foreign <g> s p o        -> ok    `_graph(foreign graph)`: the documented WRITE (not a ReadOp)
     obs                      -> `s,p,o,g … | names…`   (unsorted; the harness sorts both sides)
@@ -29,8 +29,20 @@ def gname? (s : State) (w : String) : Option GName :=
   else if w.startsWith "b" then (w.drop 1).toNat?.map GName.bnode
   else none
 
-def gnames? (s : State) (w : String) : Option (List GName) :=
-  if w = "-" then some [] else (w.splitOn ",").mapM (gname? s)
+def clause? (s : State) (w : String) : Option Clause :=
+  if w.startsWith "f:" then (gname? s (w.drop 2).toString).map Clause.dflt
+  else if w.startsWith "n:" then (gname? s (w.drop 2).toString).map Clause.named
+  else none
+
+def clauses? (s : State) (w : String) : Option (List Clause) :=
+  if w = "-" then some [] else (w.splitOn ",").mapM (clause? s)
+
+/-- the documents harness/c13.py writes: i50 = a.ttl, i51 = b.nt load; i52 (ill-formed), i53 (missing) and
+    every other IRI do not -/
+def harnessDocs : GName → Option (List Triple)
+  | .iri 50 => some [(2, 10, 3), (1, 11, 24)]
+  | .iri 51 => some [(3, 10, 23), (2, 11, 28)]
+  | _ => none
 
 def showState (s : State) : String :=
   " ".intercalate (s.quads.map (fun q => showNats [q.1.1, q.1.2.1, q.1.2.2] ++ "," ++ showG s q.2))
@@ -56,10 +68,9 @@ def readOp? (s : State) : List String → Option ReadOp
   | ["trig"] => some .serializeTrig
   | ["jsonld"] => some .serializeJsonld
   | ["graphs"] => some .graphs
-  | ["query", gv, f, n] => do
-    let f ← gnames? s f
-    let n ← gnames? s n
-    pure (.query ⟨f, n, gv = "1", fun _ => []⟩)
+  | ["query", gv, cl, lg] => do
+    let cl ← clauses? s cl
+    pure (.query ⟨cl, gv = "1", lg = "1", harnessDocs, fun _ => []⟩)
   | ["contains4", g, how] => do let g ← gname? s g; let c ← ctxArg g how; pure (.contains4 anyPat c)
   | ["quads4", g, how] => do let g ← gname? s g; let c ← ctxArg g how; pure (.quads4 anyPat c)
   | ["triples4", g, how] => do let g ← gname? s g; let c ← ctxArg g how; pure (.triples4 anyPat c)
